@@ -24,6 +24,8 @@ type tvOpts struct {
 	// Random corpora: wall-clock budget per function and solver time-out per query (0 = defaults)
 	CaseDeadlineS  int
 	QueryTimeoutMs int
+	// Only: validate only the cases whose id it accepts (nil = all)
+	Only func(id string) bool
 }
 
 // tvRandom validates a grammar-derived corpus: rejected, or accepted and equivalent; every
@@ -213,88 +215,91 @@ func tvRunOpts(ctx *RunCtx, pkgs []*tv.Package, o tvOpts) error {
 				defer wg.Done()
 				defer func() { <-sem }()
 				if err := func() error {
-			mu.Lock()
-			nfunc++
-			mu.Unlock()
-			if only := envOr("VERIF_CASE", ""); only != "" && !strings.Contains(c.ID, only) {
-				return nil
-			}
-			// did goose reject this declaration?
-			var rej *tv.ConvError
-			for i := range tr.Errors {
-				e := &tr.Errors[i]
-				if e.File == c.File && e.Line >= c.FromLine && e.Line <= c.ToLine {
-					rej = e
-					break
-				}
-			}
-			if rej != nil {
-				mu.Lock()
-				defer mu.Unlock()
-				nrejected++
-				if mode == "subset" && c.Reject == "" {
-					ctx.addTVViolation(p, &c, "accepted", fmt.Sprintf("subset program rejected: [%s] %s", rej.Category, rej.Message), tr, nil)
-				}
-				return nil
-			}
-			if c.Reject == "must" {
-				mu.Lock()
-				defer mu.Unlock()
-				ctx.addTVViolation(p, &c, "rejected", "construct outside the subset was accepted", tr, nil)
-				return nil
-			}
-			glName := c.Func
-			if i := strings.Index(glName, "."); i >= 0 {
-				glName = glName[:i] + "__" + glName[i+1:]
-			}
-			if _, ok := glp.Defs[glName]; !ok {
-				mu.Lock()
-				defer mu.Unlock()
-				ctx.addTVViolation(p, &c, "emitted", "no definition "+glName+" in the output and no error reported for the declaration", tr, nil)
-				return nil
-			}
-			fn := tv.FindFunc(prog, tv.ModPath+"/"+p.Name, c.Func)
-			if fn == nil {
-				return fmt.Errorf("generated function %s not found in SSA", c.Func)
-			}
-			t0 := time.Now()
-			out := tv.ValidateFunc(prog, fn, glp.Clone(), glName, c, bounds, 1)
-			rep := out.Report
-			if el := time.Since(t0).Seconds(); el > 5 {
-				ctx.Logf("slow case %s: %.1fs, %d paths", c.ID, el, rep.Paths)
-			}
-			mu.Lock()
-			defer mu.Unlock()
-			ctx.Reports = append(ctx.Reports, rep)
-			if rep.Ends["engine-fatal"] > 0 {
-				return fmt.Errorf("engine failure on %s: %s", c.ID, rep.EndMsgs["engine-fatal"])
-			}
-			if rep.Covers["compared"] > 0 {
-				ncompared++
-			} else {
-				nskipped++
-				ctx.Inconcl = append(ctx.Inconcl, fmt.Sprintf("%s: never compared (%v %v)", c.ID, rep.Ends, rep.EndMsgs))
-			}
-			for kind, n := range rep.Ends {
-				switch kind {
-				case "ok", "assume", "infeasible", "assert":
-				default:
-					ctx.Inconcl = append(ctx.Inconcl, fmt.Sprintf("%s: %d path(s) ended %s (%s)", c.ID, n, kind, rep.EndMsgs[kind]))
-				}
-			}
-			seen := map[string]bool{}
-			for _, v := range rep.Violations {
-				if seen[v.Label] {
-					continue
-				}
-				seen[v.Label] = true
-				v := v
-				ctx.addTVViolation(p, &c, v.Label, strings.Join(v.Notes, "; "), tr, &v)
-			}
-			if len(ctx.Samples) < 8 {
-				ctx.Samples = append(ctx.Samples, map[string]interface{}{"program": c.ID, "paths": rep.Paths, "obligations": len(rep.Obs), "go": c.Src})
-			}
-			return nil
+					mu.Lock()
+					nfunc++
+					mu.Unlock()
+					if only := envOr("VERIF_CASE", ""); only != "" && !strings.Contains(c.ID, only) {
+						return nil
+					}
+					if o.Only != nil && !o.Only(c.ID) {
+						return nil
+					}
+					// did goose reject this declaration?
+					var rej *tv.ConvError
+					for i := range tr.Errors {
+						e := &tr.Errors[i]
+						if e.File == c.File && e.Line >= c.FromLine && e.Line <= c.ToLine {
+							rej = e
+							break
+						}
+					}
+					if rej != nil {
+						mu.Lock()
+						defer mu.Unlock()
+						nrejected++
+						if mode == "subset" && c.Reject == "" {
+							ctx.addTVViolation(p, &c, "accepted", fmt.Sprintf("subset program rejected: [%s] %s", rej.Category, rej.Message), tr, nil)
+						}
+						return nil
+					}
+					if c.Reject == "must" {
+						mu.Lock()
+						defer mu.Unlock()
+						ctx.addTVViolation(p, &c, "rejected", "construct outside the subset was accepted", tr, nil)
+						return nil
+					}
+					glName := c.Func
+					if i := strings.Index(glName, "."); i >= 0 {
+						glName = glName[:i] + "__" + glName[i+1:]
+					}
+					if _, ok := glp.Defs[glName]; !ok {
+						mu.Lock()
+						defer mu.Unlock()
+						ctx.addTVViolation(p, &c, "emitted", "no definition "+glName+" in the output and no error reported for the declaration", tr, nil)
+						return nil
+					}
+					fn := tv.FindFunc(prog, tv.ModPath+"/"+p.Name, c.Func)
+					if fn == nil {
+						return fmt.Errorf("generated function %s not found in SSA", c.Func)
+					}
+					t0 := time.Now()
+					out := tv.ValidateFunc(prog, fn, glp.Clone(), glName, c, bounds, 1)
+					rep := out.Report
+					if el := time.Since(t0).Seconds(); el > 5 {
+						ctx.Logf("slow case %s: %.1fs, %d paths", c.ID, el, rep.Paths)
+					}
+					mu.Lock()
+					defer mu.Unlock()
+					ctx.Reports = append(ctx.Reports, rep)
+					if rep.Ends["engine-fatal"] > 0 {
+						return fmt.Errorf("engine failure on %s: %s", c.ID, rep.EndMsgs["engine-fatal"])
+					}
+					if rep.Covers["compared"] > 0 {
+						ncompared++
+					} else {
+						nskipped++
+						ctx.Inconcl = append(ctx.Inconcl, fmt.Sprintf("%s: never compared (%v %v)", c.ID, rep.Ends, rep.EndMsgs))
+					}
+					for kind, n := range rep.Ends {
+						switch kind {
+						case "ok", "assume", "infeasible", "assert":
+						default:
+							ctx.Inconcl = append(ctx.Inconcl, fmt.Sprintf("%s: %d path(s) ended %s (%s)", c.ID, n, kind, rep.EndMsgs[kind]))
+						}
+					}
+					seen := map[string]bool{}
+					for _, v := range rep.Violations {
+						if seen[v.Label] {
+							continue
+						}
+						seen[v.Label] = true
+						v := v
+						ctx.addTVViolation(p, &c, v.Label, strings.Join(v.Notes, "; "), tr, &v)
+					}
+					if len(ctx.Samples) < 8 {
+						ctx.Samples = append(ctx.Samples, map[string]interface{}{"program": c.ID, "paths": rep.Paths, "obligations": len(rep.Obs), "go": c.Src})
+					}
+					return nil
 				}(); err != nil {
 					mu.Lock()
 					if firstErr == nil {
